@@ -162,7 +162,9 @@ fn check_l1(case: &L1Case, ctx: &mut Ctx) -> Result<(), Fail> {
         let (l1, l2) = (nf * alpha * l1_ratio, nf * alpha * (1.0 - l1_ratio));
         let f = match fit_model(case, lasso, &case.y, alpha, l1_ratio) {
             Err(pn) => return fail(format!("{}/panic", tag), format!("panicked: {}", pn)),
-            Ok(Err(e)) => return fail(format!("{}/err", tag), format!("valid input rejected: {}", e)),
+            // (a rejection that comes from the interior-point line search's "non-finite values" exit has its own
+            // signature: one such input is a recorded known finding, see known_findings.json)
+            Ok(Err(e)) => return fail(if e.contains("non-finite values") { format!("{}/err/line-search-non-finite", tag) } else { format!("{}/err", tag) }, format!("valid input rejected: {}", e)),
             Ok(Ok(f)) => f,
         };
         ensure!(f.w.len() == p && f.w.iter().all(|v| v.is_finite()) && f.b.is_finite(), format!("{}/non-finite", tag), "coefficients {:?} intercept {}", f.w, f.b);
